@@ -352,12 +352,57 @@ fn int_leaf(v: i128, prefer_int: bool) -> Option<E> {
     if prefer_int { as_int.or(as_nat) } else { as_nat.or(as_int) }
 }
 
-fn related(rng: &mut Rng, l: &E) -> E {
-    let (v, was_int) = match l { E::Int(i) => (*i as i128, true), E::Nat(n) => (*n as i128, false), _ => (0, false) };
-    let w = match rng.below(6) { 0 | 1 => v, 2 => v + 1, 3 => v - 1, 4 => -v, _ => -v - 1 };
-    // prefer the *other* representation
-    int_leaf(w, !was_int).unwrap_or_else(|| l.clone())
+/// every representation of the integer `v` as a compile-time value: Int (if it fits i32), Nat (if non-negative and it
+/// fits u64), Float (if f64 holds it exactly; both zeros for 0), Bool (0 and 1)
+fn reps(v: i128) -> Vec<E> {
+    let mut out = vec![];
+    if v >= i32::MIN as i128 && v <= i32::MAX as i128 { out.push(E::Int(v as i32)); }
+    if v >= 0 && v <= u64::MAX as i128 { out.push(E::Nat(v as u64)); }
+    let f = v as f64;
+    if f.is_finite() && f as i128 == v && (v.unsigned_abs() <= (1u128 << 53) || v.unsigned_abs().is_power_of_two()) {
+        out.push(E::Float(f.to_bits()));
+        if v == 0 { out.push(E::Float((-0.0f64).to_bits())); }
+    }
+    if v == 0 { out.push(E::Bool(false)); }
+    if v == 1 { out.push(E::Bool(true)); }
+    out
 }
+
+/// the integer a leaf denotes, when it denotes one
+fn leaf_int(e: &E) -> Option<i128> {
+    match e {
+        E::Int(i) => Some(*i as i128),
+        E::Nat(n) => Some(*n as i128),
+        E::Bool(b) => Some(*b as i128),
+        E::Float(b) => {
+            let f = f64::from_bits(*b);
+            if f.is_finite() && f.fract() == 0.0 && f.abs() <= 1.9e19 { Some(f as i128) } else { None }
+        }
+        _ => None,
+    }
+}
+
+fn same_kind(a: &E, b: &E) -> bool {
+    std::mem::discriminant(a) == std::mem::discriminant(b)
+}
+
+/// an operand numerically related to `l` (equal, neighbour, negation) in a representation of a *different* kind when
+/// there is one
+fn related(rng: &mut Rng, l: &E) -> E {
+    let v = leaf_int(l).unwrap_or(0);
+    let w = match rng.below(6) { 0 | 1 | 2 => v, 3 => v + 1, 4 => v - 1, _ => -v };
+    let rs = reps(w);
+    let others: Vec<&E> = rs.iter().filter(|r| !same_kind(r, l)).collect();
+    if !others.is_empty() { (*rng.pick(&others)).clone() } else if !rs.is_empty() { rng.pick(&rs).clone() } else { l.clone() }
+}
+
+/// the values whose representations form the equal-pair grid: boundaries of i32, u32, u64, f64-exactness, small negatives
+const EQ_VALUES: [i128; 24] = [
+    -2147483648, -2147483647, -65536, -46341, -7, -3, -2, -1, 0, 1, 2, 3, 7, 65536, 2147483647, 2147483648, 4294967295,
+    4294967296, 9007199254740991, 9007199254740992, 9007199254740993, 9223372036854775807, 9223372036854775808,
+    18446744073709551615,
+];
+const CMP: [OpKind; 6] = [OpKind::Gt, OpKind::Lt, OpKind::Ge, OpKind::Le, OpKind::Eq, OpKind::Ne];
 
 fn gen_expr(rng: &mut Rng, fl: &[u64], depth: u32, float_w: u64) -> E {
     if depth == 0 { return gen_leaf(rng, fl, float_w); }
@@ -371,8 +416,8 @@ fn gen_expr(rng: &mut Rng, fl: &[u64], depth: u32, float_w: u64) -> E {
             let l = gen_expr(rng, fl, d1, float_w);
             // one case in five: the right operand is *related* to the left one (the same integer in the other
             // representation, a neighbour, the negation) - the boundary of comparisons, `-`, `//`, `%`
-            let r = match (&l, rng.chance(1, 5)) {
-                (E::Int(_) | E::Nat(_), true) => related(rng, &l),
+            let r = match (leaf_int(&l), rng.chance(1, 5)) {
+                (Some(_), true) => related(rng, &l),
                 _ => gen_expr(rng, fl, d2, float_w),
             };
             E::Bin(op, Box::new(l), Box::new(r))
@@ -412,7 +457,24 @@ fn gen_e2e(rng: &mut Rng) -> E {
     let with_float = rng.chance(1, 4);
     match rng.below(10) {
         0..=5 => gen_e2e_num(rng, 2, with_float),
-        6..=8 => {
+        6 => {
+            // numerically equal or adjacent operands in different literal kinds (Nat / negative Int / Float), e.g. `-2.0 >= -2`
+            let v = *rng.pick(&[-2147483648i128, -46341, -7, -3, -2, -1, 0, 1, 2, 3, 7, 65536, 2147483647, 2147483648, 4294967296]);
+            let mut w = match rng.below(4) { 0 | 1 => v, 2 => v + 1, _ => v - 1 };
+            if w < i32::MIN as i128 { w = v; } // below every literal form
+            let lit = |rng: &mut Rng, x: i128, float: bool| -> E {
+                if float && (x as f64) as i128 == x && src(&E::Float((x as f64).to_bits()), true, false).is_some() {
+                    E::Float((x as f64).to_bits())
+                } else if x < 0 { E::Int(x as i32) } else { let _ = rng; E::Nat(x as u64) }
+            };
+            let op = *rng.pick(&[OpKind::Gt, OpKind::Lt, OpKind::Ge, OpKind::Le, OpKind::Ge, OpKind::Le, OpKind::Eq, OpKind::Ne]);
+            let eqlike = op == OpKind::Eq || op == OpKind::Ne;
+            let (fl_l, fl_r) = if eqlike { (false, false) } else { match rng.below(3) { 0 => (true, false), 1 => (false, true), _ => (true, true) } };
+            let l = lit(rng, v, fl_l);
+            let r = lit(rng, w, fl_r);
+            E::Bin(op, Box::new(l), Box::new(r))
+        }
+        7..=8 => {
             let op = *rng.pick(&[OpKind::Gt, OpKind::Lt, OpKind::Ge, OpKind::Le, OpKind::Eq, OpKind::Ne]);
             // `==`/`!=` between a Float and an integer is ill-typed in Erg: keep both sides integer-valued there
             let eqlike = op == OpKind::Eq || op == OpKind::Ne;
@@ -479,6 +541,40 @@ fn main() {
                                 let e = E::Bin(op, Box::new(l.clone()), Box::new(r.clone()));
                                 run_input(&format!("s{}", id), &format!("(core {})", show(&e)));
                                 id += 1;
+                            }
+                        }
+                    }
+                }
+                // every tier: the equal-pair grid. For each boundary value v and w in {v, v+1, v-1}: every pair of
+                // representations (Int, Nat, Float, -0.0, Bool) of v and w, in both orders by construction, under the six
+                // comparison operators and `-`, `//`, `%` - so every row of try_lt/le/gt/ge/eq/ne (Int/Int, Nat/Nat,
+                // Float/Float, Int/Nat, Nat/Int, Float/Nat, Nat/Float, Float/Int, Int/Float, Bool mixes) meets numerically
+                // equal and adjacent operands, negative ones included
+                {
+                    let mut id = 0usize;
+                    for v in EQ_VALUES {
+                        for w in [v, v + 1, v - 1] {
+                            for l in reps(v) {
+                                for r in reps(w) {
+                                    for op in CMP.iter().chain([OpKind::Sub, OpKind::FloorDiv, OpKind::Mod].iter()) {
+                                        let e = E::Bin(*op, Box::new(l.clone()), Box::new(r.clone()));
+                                        run_input(&format!("q{}", id), &format!("(core {})", show(&e)));
+                                        id += 1;
+                                    }
+                                }
+                            }
+                        }
+                    }
+                    // half-integers next to the small values (a Float strictly between two integers)
+                    for v in [-3i128, -2, -1, 0, 1, 2, 2147483647, -2147483648] {
+                        for h in [v as f64 + 0.5, v as f64 - 0.5] {
+                            for r in reps(v) {
+                                for op in CMP {
+                                    let f = E::Float(h.to_bits());
+                                    run_input(&format!("q{}", id), &format!("(core {})", show(&E::Bin(op, Box::new(f.clone()), Box::new(r.clone())))));
+                                    run_input(&format!("q{}", id + 1), &format!("(core {})", show(&E::Bin(op, Box::new(r.clone()), Box::new(f)))));
+                                    id += 2;
+                                }
                             }
                         }
                     }
